@@ -181,6 +181,9 @@ class Gen:
         if 'd' in allow and 0 < len(v) <= 64:
             z = int.from_bytes(v, 'big', signed=True)
             if V.i2b(z) == v: opts.append('d')
+        if 's' in allow and len(v) == 0 and rng.random() < .7:
+            q = rng.choice(['"', "'"])
+            return f's{q}{q}'          # the empty string literal: an operand like any other (boundary of the s-prefix)
         if 's' in allow and len(v) > 0:
             try:
                 t = v.decode('utf-8')
@@ -316,6 +319,7 @@ class Gen:
         if k == 'writeCache':
             key, cnt = n[2], n[3]
             ks = 'x' + key.hex()
+            if len(key) == 0 and rng.random() < .6: ks = rng.choice(['s""', "s''"])
             if len(key) > 0 and rng.random() < .4:
                 try:
                     t_ = key.decode()
